@@ -323,7 +323,7 @@ def _gate(R1, R2, Rc, eps, conds, central, R4=None, noise=None):
 
 
 def closed_form(fn, k, seed, ns, p0, multinom, eps, dseed, nboot, log=False, nested=None, full=None, adjusts=None, perm=None, pts=(10,),
-                pcont='list', dmask=0, bcont='spectrum', acont='list', scales=None, fold=False):
+                pcont='list', dmask=0, bcont='spectrum', acont='list', scales=None, fold=False, zboot=0):
     """fn in FIM, GIM, LRT, Wald, score.  Calls dadi at eps and 2*eps, compares with the closed form."""
     import dadi
     from dadi import Godambe
@@ -340,6 +340,9 @@ def closed_form(fn, k, seed, ns, p0, multinom, eps, dseed, nboot, log=False, nes
             data.mask.flat[i] = True
     boots = [dadi.Spectrum(model * (1 + 0.25 * np.random.RandomState(dseed * 100 + b).standard_normal(model.shape)).clip(0.2, 4) * (3.0 if multinom else 1.0))
              for b in range(nboot)]
+    for b in range(min(zboot, nboot)):
+        # a bootstrap replicate without a single SNP (a short chunk set): its Poisson score is -dM/dp, not zero
+        boots[(3 * dseed + 5 * b) % nboot] = dadi.Spectrum(np.zeros(model.shape))
     if fold:
         data = data.fold()
         boots = [b.fold() for b in boots]
